@@ -276,12 +276,14 @@ type delMonitor struct {
 	raw      map[string]bool
 	keyCols  []string
 	collapse bool
+	narrow   [][]string // narrower tag sets announced by some raw files (see compareRows)
 	phase    string
 
-	mu       sync.Mutex
-	checked  int
-	rowsSeen int
-	early    []any
+	mu          sync.Mutex
+	checked     int
+	rowsSeen    int
+	early       []any
+	earlyNarrow []any // rows missing only because an output was deduplicated on a narrower key
 }
 
 func (d *delMonitor) observe(key string) {
@@ -295,6 +297,10 @@ func (d *delMonitor) observe(key string) {
 	}
 	haveRid := map[int64]bool{}
 	haveKey := map[string]bool{}
+	haveNarrow := make([]map[string]bool, len(d.narrow))
+	for i := range haveNarrow {
+		haveNarrow[i] = map[string]bool{}
+	}
 	var outputs []string
 	base := filepath.Join(d.root, d.p.DB, d.p.Meas)
 	_ = filepath.Walk(base, func(a string, info os.FileInfo, err error) error {
@@ -314,21 +320,39 @@ func (d *delMonitor) observe(key string) {
 		for _, r := range f.Rows {
 			haveRid[ridOf(r)] = true
 			haveKey[rowKey(r, d.keyCols)] = true
+			for i, e := range d.narrow {
+				haveNarrow[i][rowKey(r, e)] = true
+			}
 		}
 		return nil
 	})
 	var missing []int64
+	explained := d.collapse && len(d.narrow) > 0
 	for _, r := range victim.Rows {
 		if haveRid[ridOf(r)] || (d.collapse && haveKey[rowKey(r, d.keyCols)]) {
 			continue
 		}
 		missing = append(missing, ridOf(r))
+		ok := false
+		for i, e := range d.narrow {
+			if haveNarrow[i][rowKey(r, e)] {
+				ok = true
+			}
+		}
+		if !ok {
+			explained = false
+		}
 	}
 	d.mu.Lock()
 	d.checked++
 	d.rowsSeen += len(victim.Rows)
-	if len(missing) > 0 && len(d.early) < 5 {
-		d.early = append(d.early, map[string]any{"deleted": key, "during": d.phase, "rows_not_in_any_complete_output": missing, "complete_outputs_present": outputs})
+	if len(missing) > 0 {
+		ev := map[string]any{"deleted": key, "during": d.phase, "rows_not_in_any_complete_output": missing, "complete_outputs_present": outputs}
+		if explained && len(d.earlyNarrow) < 5 {
+			d.earlyNarrow = append(d.earlyNarrow, ev)
+		} else if !explained && len(d.early) < 5 {
+			d.early = append(d.early, ev)
+		}
 	}
 	d.mu.Unlock()
 }
